@@ -135,11 +135,15 @@ class MapGen:
             t = self.text()
             if t not in texts:
                 texts.append(t)
+        if rng.random() < 0.5:
+            # editors keep ids whose text is the empty string; a reference to the last of them is a
+            # reference like any other
+            texts.insert(rng.randrange(0, len(texts) + 1), b"")
         str_payload, by_text = self.build_str(texts, form)
         meta = {"form": form, "variant": variant}
 
-        def sref():
-            return self.ref(by_text, rng.choice(texts), form)
+        def sref(nonempty=False):
+            return self.ref(by_text, rng.choice([t for t in texts if t or not nonempty]), form)
 
         # ---- MRGN
         nslots = 64 if variant == "mrgn64" else (255 if form == "editor" else rng.choice([64, 255, 255]))
@@ -179,10 +183,10 @@ class MapGen:
                 upus = bytes(rng.choice([0, 1]) for _ in range(64))
         # ---- SWNM
         # named switches, half of the time among the lowest ids (the first ones an allocator would hand out)
-        sw_names = {i: sref() for i in rng.sample(range(12) if rng.random() < 0.5 else range(256), rng.randrange(0, 5))}
+        sw_names = {i: sref(True) for i in rng.sample(range(12) if rng.random() < 0.5 else range(256), rng.randrange(0, 5))}
         swnm = b"".join(struct.pack("<I", sw_names.get(i, 0)) for i in range(256))
         # ---- WAV
-        wav_ids = {i: sref() for i in rng.sample(range(512), rng.randrange(0, 4))}
+        wav_ids = {i: sref(True) for i in rng.sample(range(512), rng.randrange(0, 4))}
         wav = b"".join(struct.pack("<I", wav_ids.get(i, 0)) for i in range(512))
         # ---- UNIS / UNIx
         quiet_weapons = rng.random() < 0.7  # most editor-form maps leave weapons no unit carries at 0
